@@ -52,6 +52,24 @@ Proof.
   destruct ((0 <=? z) && (z <=? width (nver n))); reflexivity.
 Qed.
 
+(* ---- IPAddress.netmask_bits: the `while i_val > 0` loop (generated Fixpoint on fuel) is Ip.nb_loop, whose `None` is the
+   generated loop's `Raise OutOfFuel`; the fuel `Z.to_nat w + 2` comes from the translator's FUEL table.  No hypothesis. ---- *)
+Lemma src_netmask_bits_loop_ok fuel numbits i_val :
+  src_IPAddress_netmask_bits_loop1 fuel numbits i_val =
+    match nb_loop fuel i_val numbits with None => Raise OutOfFuel | Some n => Ok n end.
+Proof.
+  revert numbits i_val. induction fuel as [|f IH]; intros numbits i_val; [reflexivity|].
+  cbn [src_IPAddress_netmask_bits_loop1 nb_loop].
+  destruct (i_val >? 0); [|reflexivity]. destruct (Z.land i_val 1 =? 1); [reflexivity|]. apply IH.
+Qed.
+Lemma src_netmask_bits_ok ver w v : src_IPAddress_netmask_bits ver w v = netmask_bits w v.
+Proof.
+  unfold src_IPAddress_netmask_bits, netmask_bits. change (src_IPAddress_is_netmask ver w v) with (is_netmask w v).
+  destruct (negb (is_netmask w v)); [reflexivity|]. destruct (v =? 0); [reflexivity|].
+  cbv zeta. rewrite src_netmask_bits_loop_ok. destruct (nb_loop (Z.to_nat w + 2) v 0) as [n|]; [|reflexivity].
+  cbn [bind]. destruct ((0 <=? w - n) && (w - n <=? w)); reflexivity.
+Qed.
+
 (* ---- well-formed network: the constructor's range check is redundant, the result is the model value ---- *)
 Section Wf.
 Variables ver v p : Z.
@@ -99,6 +117,10 @@ End Wf.
 
 (* everything the C02 source tie states, as one conjunction (Props/C02_src.v) *)
 Lemma C02_tie_ok :
+  (forall ver w v, src_IPAddress_netmask_bits ver w v = netmask_bits w v) /\
+  (forall fuel numbits i_val,
+     src_IPAddress_netmask_bits_loop1 fuel numbits i_val =
+       match nb_loop fuel i_val numbits with None => Raise OutOfFuel | Some n => Ok n end) /\
   (forall ver w v p,
      src_IPNetwork_hostmask_int ver w v p = hostmask_int w p /\
      src_IPNetwork_netmask_int ver w v p = netmask_int w p /\
@@ -132,6 +154,7 @@ Lemma C02_tie_ok :
    src_ipv4_max_int = max_int_w src_ipv4_width /\ src_ipv6_max_int = max_int_w src_ipv6_width /\
    src_ipv4_max_int = max_int 4 /\ src_ipv6_max_int = max_int 6).
 Proof.
+  split; [exact src_netmask_bits_ok|]. split; [exact src_netmask_bits_loop_ok|].
   split; [intros; repeat split; reflexivity|].
   split; [exact src_broadcast_ok|]. split; [intros; split; reflexivity|].
   split; [intros; split; [apply src_set_value_ok|apply src_set_prefixlen_ok]|].
